@@ -68,7 +68,7 @@ func profileFor(prop, tier string, rng *PRNG) *Profile {
 		only("aol", "aolAdv", "authz", "multi", "replay", "rollback")
 		boost("rollback", 3)
 		boost("aol", 2)
-		p.PBootstrap, p.PCrash = 0.08, 0.15
+		p.PBootstrap, p.PCrash = 0.12, 0.15
 	case "C02":
 		only("aol", "aolAdv", "authz", "multi", "tamper", "rollback")
 		boost("rollback", 3)
@@ -304,6 +304,7 @@ func GenerateScript(seed uint64, prop, tier string, env *Env) *Script {
 	// and x/upgrade refuses to run that binary while the plan is still in the future ("BINARY UPDATED BEFORE TRIGGER"),
 	// so the proposal is timed to pass in the EndBlock right before the plan height: submitted two 5 s blocks earlier.
 	viaGov := upgradeAt >= 2 && rng.Chance(0.5)
+	skippedFirst := false
 	if upgradeAt >= 0 && rng.Chance(0.25) {
 		// the operators have agreed to skip this upgrade: every node runs with --unsafe-skip-upgrades=<plan height>
 		h0 := s.Config.InitialHeight
@@ -311,6 +312,12 @@ func GenerateScript(seed uint64, prop, tier string, env *Env) *Script {
 			h0 = 1
 		}
 		s.Config.SkipUpgradeHeights = []int64{h0 + int64(upgradeAt) + 1}
+		if rng.Chance(0.5) && upgradeAt+5 < nBlocks {
+			// two stages, as on a chain where a proposal named a release that was never built: that plan is skipped by
+			// agreement (its upgrade-info.json stays on disk), and the real v2.2.1 plan comes a few blocks later
+			skippedFirst = true
+			viaGov = false
+		}
 	}
 	fams, ws := weightList(g.p.W)
 	for b := 0; b < nBlocks; b++ {
@@ -332,8 +339,17 @@ func GenerateScript(seed uint64, prop, tier string, env *Env) *Script {
 			g.family(fams[rng.Pick(ws)])
 		}
 		g.faults(b, nBlocks)
+		if skippedFirst && b == upgradeAt+3 {
+			g.steps = append(g.steps, Step{K: "upgrade"})
+		}
+		if skippedFirst && b == upgradeAt+2 && rng.Chance(0.7) {
+			// a restart while the upgrade-info.json of the skipped plan is still on disk
+			g.steps = append(g.steps, Step{K: "restart0"})
+		}
 		if b == upgradeAt {
-			if !viaGov {
+			if skippedFirst {
+				g.steps = append(g.steps, Step{K: "upgrade", PlanName: "v9.9.9-never-built"})
+			} else if !viaGov {
 				g.steps = append(g.steps, Step{K: "upgrade"})
 			}
 			g.upgraded = true
